@@ -140,6 +140,8 @@ type c12World struct {
 	// watchdog: what this world is executing right now and since when (guarded by c12WatchMu)
 	busy    *c12Run
 	started time.Time
+	// length of the logger's buffer when the first RunUntil call of the last scenario returned
+	logLen1 int
 }
 
 var (
@@ -389,6 +391,12 @@ func c12Exec(w *c12World, r c12Run) (sig, what string) {
 	}
 	// life after RunUntil: a second call on the same System (towards the end of the program, fresh budget)
 	// must again behave like the hand-stepped loop continued from where the first one stopped
+	switch {
+	case pw != nil:
+		w.logLen1 = pw.buf.Len()
+	case rw != nil:
+		w.logLen1 = rw.buf.Len()
+	}
 	target2, budget2 := r.Start+uint32(len(code)), uint64(24)
 	consumed, steps = 0, 0
 	for consumed < budget2 && w.twin.GetPC() != target2 {
